@@ -100,6 +100,7 @@ type Meta struct {
 	Assumptions []string `json:"assumptions"`
 	Exhaustive  string   `json:"exhaustive"` // description of the sub-space enumerated completely ("" none)
 	Components  string   `json:"components"`
+	Stages      int      `json:"stages"`
 }
 
 type Finding struct {
@@ -486,9 +487,19 @@ func (b *build) runAll(specs []*Spec, race bool, deadline time.Time, sampleFirst
 	next := 0
 	var wg sync.WaitGroup
 	n := workers
-	if race && n > 8 {
+	// the race worker is used for the runs that ask for it (Params race=1) and
+	// for nothing else: it is ~40x slower; at most 8 of them at a time
+	allRace := race
+	for _, s := range specs {
+		if s.Params["race"] != "1" {
+			allRace = false
+			break
+		}
+	}
+	if allRace && n > 8 {
 		n = 8
 	}
+	raceSem := make(chan struct{}, 8)
 	for w := 0; w < n; w++ {
 		wg.Add(1)
 		go func() {
@@ -506,7 +517,14 @@ func (b *build) runAll(specs []*Spec, race bool, deadline time.Time, sampleFirst
 				if i < sampleFirst {
 					env = append(env, "VERIF_SAMPLE=1")
 				}
-				r := b.runSpec(specs[i], race, env...)
+				useRace := race && specs[i].Params["race"] == "1"
+				if useRace {
+					raceSem <- struct{}{}
+				}
+				r := b.runSpec(specs[i], useRace, env...)
+				if useRace {
+					<-raceSem
+				}
 				mu.Lock()
 				done++
 				onResult(r)
@@ -631,8 +649,14 @@ func cmdCheck(args []string) int {
 			// the budget is for running, not for planning
 			deadline = time.Now().Add(time.Duration(*budget) * time.Second)
 		}
+		// a property whose later stages are planned from this one keeps 40 % of
+		// the budget for them (what this stage does not use is theirs as well)
+		stageDeadline := deadline
+		if stage == 0 && meta.Stages > 1 {
+			stageDeadline = time.Now().Add(time.Duration(*budget) * time.Second * 6 / 10)
+		}
 		var stageRes []*Result
-		done := b.runAll(specs, meta.Race && specRace(specs), deadline, 6, func(r *Result) {
+		done := b.runAll(specs, meta.Race && specRace(specs), stageDeadline, 6, func(r *Result) {
 			stageRes = append(stageRes, r)
 			if r.infra != "" {
 				infra++
@@ -665,8 +689,8 @@ func cmdCheck(args []string) int {
 		all = append(all, stageRes...)
 		prev = stageRes
 		fmt.Printf("verif: stage %d: %d/%d runs, %d violation signatures so far, %d without verdict\n", stage, done, len(specs), len(groups), infra)
-		if truncated {
-			break
+		if truncated && !time.Now().Before(deadline) {
+			break // the whole budget is used up (a stage cut short at its own share goes on to the next)
 		}
 	}
 
